@@ -32,6 +32,15 @@ def deco_info(fn):
     return exported, phases
 
 
+def find_method(tree, cls, name):
+    for c in tree.body:
+        if isinstance(c, ast.ClassDef) and c.name == cls:
+            for n in c.body:
+                if isinstance(n, ast.FunctionDef) and n.name == name:
+                    return n
+    raise Unsupported('anchor missing: %s.%s' % (cls, name))
+
+
 def generate(repo):
     rows = []
     for f in FILES:
@@ -94,9 +103,19 @@ def generate(repo):
                     pre = [ast.unparse(x) for x in body if not isinstance(x, ast.With)]
                     if ctx == 'ExecutionContext(EXECUTION_PHASE.GLOBAL)' and not pre:
                         table, fallback = [], False          # every handler forced into GLOBAL
-                    elif ctx == 'ExecutionContext(phase)' and pre == ['phase = self._EVENT_PHASE.get(event.event_type)',
-                                                                      'if phase is None:\n    phase = ExecutionContext.phase()']:
+                    elif ctx == 'ExecutionContext(phase)' and pre == [
+                            'phase = self._EVENT_PHASE.get(event.event_type)',
+                            'if phase is None:\n    for event_type in reversed(Environment.get_instance().event_bus.publishing()):\n'
+                            '        phase = self._EVENT_PHASE.get(event_type)\n        if phase is not None:\n            break',
+                            'if phase is None:\n    phase = ExecutionContext.phase()']:
+                        # the phase of the innermost day-phase event being published, else the phase on the stack
                         fallback = True
+                        bus = ast.parse(open(os.path.join(repo, 'rqalpha/core/events.py')).read())
+                        pub = find_method(bus, 'EventBus', 'publish_event')
+                        shape = [ast.unparse(x).split('\n')[0] for x in pub.body]
+                        if shape != ['self._publishing.append(event.event_type)', 'try:'] or not isinstance(pub.body[1], ast.Try) or \
+                                [ast.unparse(x) for x in pub.body[1].finalbody] != ['self._publishing.pop()']:
+                            raise Unsupported('EventBus.publish_event does not keep the stack of events being published: %s' % shape)
                     else:
                         raise Unsupported('wrap_user_event_handler: %s / %s' % (ctx, pre))
                     seen = True
